@@ -213,6 +213,7 @@ func runC03b(c c03bCase, o *vfutil.Obs) *vfutil.Failure {
 	}()
 
 	// read-only toggler
+	var roGen int64 // bumped before and after every read-only switch: even and unchanged = no switch happened in between
 	stopToggle := make(chan struct{})
 	if c.Toggle > 0 {
 		wg.Add(1)
@@ -228,9 +229,13 @@ func runC03b(c c03bCase, o *vfutil.Obs) *vfutil.Failure {
 					}
 					runtime.Gosched()
 				}
+				atomic.AddInt64(&roGen, 1) // odd: a toggle is in progress
 				l.SetReadonly(true)
+				atomic.AddInt64(&roGen, 1)
 				time.Sleep(time.Duration(100+50*i) * time.Microsecond)
+				atomic.AddInt64(&roGen, 1)
 				l.SetReadonly(false)
+				atomic.AddInt64(&roGen, 1)
 			}
 		}()
 	}
@@ -299,11 +304,20 @@ func runC03b(c c03bCase, o *vfutil.Obs) *vfutil.Failure {
 			hb := make([]byte, 28)
 			first := true
 			for {
+				genBefore := atomic.LoadInt64(&roGen)
 				hwBefore := l.HighWatermark()
 				m, off, _, _, err := r.ReadMessage(ctx, hb)
 				if err != nil {
 					if pkgErrors.Cause(err) == ErrCommitLogReadonly {
 						hwAfter := l.HighWatermark()
+						newest := l.NewestOffset()
+						if g := atomic.LoadInt64(&roGen); g == genBefore && g%2 == 0 && l.IsReadonly() && hwAfter < newest {
+							// the log was read-only during the whole call (so its end did
+							// not move) and still has uncommitted messages: the reader
+							// must keep waiting for the HW instead of ending
+							fail.set(vfutil.Failf("C03/ended-instead-of-waiting", "reader %d: got end-of-readonly-log at next offset %d with hw %d below the log end %d", i, st.next, hwAfter, newest))
+							return
+						}
 						if !first && (st.next < hwBefore+1 || st.next > hwAfter+1) {
 							fail.set(vfutil.Failf("C03/readonly-end-while-data-committed", "reader %d: got end-of-readonly-log at next offset %d although hw was %d..%d", i, st.next, hwBefore, hwAfter))
 							return
